@@ -119,7 +119,7 @@ type ContractFile struct {
 	Lemmas []*Lemma
 }
 
-var kwRe = regexp.MustCompile(`^(limit|apply|mention|cut|func|lemma|mode|returns|logical|requires|ensures|loop|call|waive|panics|props|trusted|assert|assume|split|nosafety|forall|hyp|holds|export|uses|assigns)\b`)
+var kwRe = regexp.MustCompile(`^(define|limit|apply|mention|cut|func|lemma|mode|returns|logical|requires|ensures|loop|call|waive|panics|props|trusted|assert|assume|split|nosafety|forall|hyp|holds|export|uses|assigns)\b`)
 
 func parseContractFile(path string) (*ContractFile, error) {
 	f, err := os.Open(path)
@@ -163,9 +163,31 @@ func parseContractFile(path string) (*ContractFile, error) {
 		}
 		return &Clause{Text: text, E: e, Line: line}, nil
 	}
+	macros := map[string]string{}
+	var macroOrder []string
 	for _, it := range items {
 		kw := kwRe.FindString(it.text)
 		rest := strings.TrimSpace(it.text[len(kw):])
+		if kw == "func" || kw == "lemma" {
+			macros = map[string]string{}
+			macroOrder = nil
+		} else if kw == "define" {
+			m := regexp.MustCompile(`^([A-Za-z_][A-Za-z0-9_]*)\s*=\s*(.*)$`).FindStringSubmatch(rest)
+			if m == nil {
+				return nil, fmt.Errorf("%s:%d: bad define clause", path, it.line)
+			}
+			body := m[2]
+			for _, name := range macroOrder {
+				body = regexp.MustCompile(`\b`+name+`\b`).ReplaceAllString(body, "("+macros[name]+")")
+			}
+			macros[m[1]] = body
+			macroOrder = append(macroOrder, m[1])
+			continue
+		} else {
+			for _, name := range macroOrder {
+				rest = regexp.MustCompile(`\b`+name+`\b`).ReplaceAllString(rest, "("+macros[name]+")")
+			}
+		}
 		fail := func(format string, a ...interface{}) error {
 			return fmt.Errorf("%s:%d: %s", path, it.line, fmt.Sprintf(format, a...))
 		}
